@@ -97,7 +97,7 @@ def parse_b09(out):
         return None, {"msg": "reference parser recursion limit", "line": None, "col": None, "text": None, "harness": True}
 
 
-def run_b09(out, inputs=(), budget=20000, start_label=None, err=0, procs=None, tape_start=1):
+def run_b09(out, inputs=(), budget=20000, start_label=None, err=0, procs=None, tape_start=1, hyp_for_body_once=False):
     """Execute emitted BASIC09 text with the reference interpreter."""
     if procs is None:
         procs, perr = parse_b09(out)
@@ -105,6 +105,7 @@ def run_b09(out, inputs=(), budget=20000, start_label=None, err=0, procs=None, t
             return {"status": "parse", "error": perr, "events": [], "store": {}, "uninit": [], "mismatches": []}
     main = procs[-1]
     m = b09i.Machine(procs, library(), inputs=inputs, budget=budget, tape_start=tape_start)
+    m.hyp_for_body_once = hyp_for_body_once
     res = {"status": "ok", "error": None}
     frame = None
     try:
@@ -146,6 +147,8 @@ def run_cb(prog, inputs=(), budget=5000, tape_start=1):
     res["steps"] = m.steps
     res["store"] = m.store()
     res["ended"] = m.ended
+    res["zero_trip"] = m.zero_trip
+    res["unassigned_reads"] = m.unassigned_reads
     return res
 
 
